@@ -60,7 +60,7 @@ impl Prop for P {
         let cuts = (input(), ring()).prop_map(|(input, ring)| Case::Cuts { input, ring });
         let rnd = (input(), ring(), proptest::collection::vec(dec_sched(), 1..4)).prop_map(|(input, ring, scheds)| Case::Random { input, ring, scheds });
         let sl = (proptest::collection::vec(prop_oneof![0u32..=3, 1u32..=40, 1u32..=2000], 0..12), proptest::collection::vec(prop_oneof![1u32..=3, 1u32..=60, Just(70000u32)], 1..5));
-        let inf = (input(), proptest::collection::vec(sl, 1..4)).prop_map(|(input, slicings)| Case::Inflate { input, slicings });
+        let inf = (prop_oneof![10 => input(), 2 => big_output_input(), 1 => window_edge_input()], proptest::collection::vec(sl, 1..4)).prop_map(|(input, slicings)| Case::Inflate { input, slicings });
         prop_oneof![3 => cuts, 5 => rnd, 2 => inf].boxed()
     }
     fn check(case: &Case, cx: &mut Ctx) -> Check {
@@ -132,6 +132,13 @@ impl Prop for P {
                 let base = run(&[], &[1 << 17])?;
                 let v = ref_inflate(&data, &Opts { max_out: 4 << 20, ..Opts::fmt(zl) });
                 let valid = v.verdict == Verdict::Valid;
+                if valid {
+                    // "for valid streams the result is also the same across ... entry points"
+                    vensure!(base.0 == v.out && base.1 == Ok(miniz_oxide::MZStatus::StreamEnd) && base.2 == v.consumed, "c07:valid-differs-across-entry-points", "inflate() (flush None, everything offered, 128 KiB output per call) on a valid stream: ({} bytes, {:?}, consumed {}), the core decoder / reference: ({} bytes, Done, consumed {})", base.0.len(), base.1, base.2, v.out.len(), v.consumed);
+                    if v.out.len() > 32768 {
+                        cx.class("inflate-slicing:valid,output>32KiB");
+                    }
+                }
                 for (ch, os) in slicings {
                     let o = run(ch, os)?;
                     if valid {
